@@ -23,6 +23,9 @@ from vf.common import StepBudgetExceeded, chash, last_steps, run_with_budget
 ID = "C14"
 LEVEL = "exploration"
 DESIGN_REF = "DESIGN.md#C14"
+LEVEL_TEXT = (
+    "Exploration, exhaustive on a finite abstraction: all strings up to length 3 (quick) / 4 (thorough; 5 over a reduced alphabet) over one representative per lexical byte class, plus biased random strings, each tokenized at six buffer sizes under a line-count budget; only PSEOF may be raised, positions must be non-decreasing and inside the input, and the token sequences must agree for all sizes. Right level: the tokenizer's behaviour depends on the byte classes its regexes distinguish, so short exhaustive strings over class representatives reach every state transition pair; longer interactions are sampled."
+)
 RULE = (
     "exhaustive: all strings of length<=L over a 25-symbol alphabet with one representative per lexical "
     "byte class (L=3 quick, 4 thorough, plus L=5 over a 16-symbol sub-alphabet in thorough); random: strings "
